@@ -350,7 +350,7 @@ func ruleC01Dispatch(c *Ctx) {
 			continue
 		}
 		fl, rl := li.FeedLoops[0], li.ReadLoops[0]
-		if fl.Descending != rl.Descending && c.loopIndexesList(rl) {
+		if fl.Desc() != rl.Desc() && c.loopIndexesList(rl) {
 			c.violate("C01.dispatch", "list:"+lit+":direction", rl.L.Head.Instrs[0].Pos(), name, "the "+lit+" list is requested and read back in opposite directions")
 		}
 		cnt := func(l *scanLoop, callee *ssa.Function) countRange {
@@ -467,6 +467,9 @@ func (c *Ctx) isLoopElement(v ssa.Value, l *scanLoop) bool {
 }
 
 func (c *Ctx) isLoopIndex(idx ssa.Value, l *scanLoop) bool {
+	if l.Mirror {
+		return c.mirrorIndex(idx, l)
+	}
 	if !l.Descending {
 		// rotated range: index is phi+1 ; plain for: phi
 		if bo, ok := idx.(*ssa.BinOp); ok && bo.Op == token.ADD && bo.X == ssa.Value(l.IndexPhi) {
@@ -507,14 +510,14 @@ func ruleC01Effects(c *Ctx) {
 			continue
 		}
 		for _, call := range calls {
-			oidBase, oidPath := c.fieldPath(c.resolve(call.Call.Args[1]))
+			oidBase, oidPath := c.fieldPath(c.throughLocalStruct(call.Call.Args[1]))
 			if oidBase == nil || oidPath[len(oidPath)-1] != "OID" {
 				c.violate("C01.effects", "provenance:"+reg.name+":oid", call.Pos(), fnName(si.Fn), "the object id registered is not the OID field of the record just read")
 				continue
 			}
 			var recBase ssa.Value
 			if reg.parse == "" {
-				b, p := c.fieldPath(c.resolve(call.Call.Args[2]))
+				b, p := c.fieldPath(c.throughLocalStruct(call.Call.Args[2]))
 				if b == nil || p[len(p)-1] != "ObjectSize" {
 					c.violate("C01.effects", "provenance:"+reg.name+":size", call.Pos(), fnName(si.Fn), "the size registered is not the ObjectSize field of the header just read")
 					continue
@@ -597,6 +600,7 @@ func ruleC01Rootset(c *Ctx) {
 		}
 		// walk the append chain
 		var appends []*ssa.Call
+		var adds []rootAdd
 		var bases []ssa.Value
 		seen := map[ssa.Value]bool{}
 		var walk func(v ssa.Value)
@@ -673,7 +677,12 @@ func ruleC01Rootset(c *Ctx) {
 			}
 			if ms, ok := b.(*ssa.MakeSlice); ok {
 				if n, ok := constInt(ms.Len); !ok || n != 0 {
-					c.violate("C01.rootset", name+":base-len", call.Pos(), name, "the roots slice is created with a non-zero length: zero-valued roots would be scanned")
+					// make([]Root, p+q) filled by index: [0,p) from one loop, [p,p+q) from another
+					if fills, ok := c.indexedFill(ms); ok {
+						adds = append(adds, fills...)
+					} else {
+						c.violate("C01.rootset", name+":base-len", call.Pos(), name, "the roots slice is created with a non-zero length: zero-valued roots would be scanned")
+					}
 				}
 			}
 		}
@@ -684,7 +693,11 @@ func ruleC01Rootset(c *Ctx) {
 				c.violate("C01.rootset", name+":append-shape", ap.Pos(), name, "roots are appended other than one at a time")
 				continue
 			}
-			el := elems[0]
+			adds = append(adds, rootAdd{ap, elems[0]})
+		}
+		for _, ad := range adds {
+			var ap ssa.Instruction = ad.At
+			el := ad.Elem
 			if mi, ok := el.(*ssa.MakeInterface); ok {
 				el = mi.X
 			}
@@ -969,4 +982,110 @@ func ruleC01Borrowed(c *Ctx) {
 	defer func() { c.RuleAlias = nil }()
 	ruleC09Pending(c)
 	ruleC13Isolation(c)
+}
+
+// rootAdd: one place where a root enters the roots slice.
+type rootAdd struct {
+	At   ssa.Instruction
+	Elem ssa.Value
+}
+
+// loopCounterBound: idx is the counter of a loop `for i := 0; i < N; i++`
+// (or the rotated range form); returns N.
+func (c *Ctx) loopCounterBound(f *ssa.Function, idx ssa.Value) (ssa.Value, bool) {
+	phi, _ := idx.(*ssa.Phi)
+	if bo, ok := idx.(*ssa.BinOp); ok && bo.Op == token.ADD {
+		if k, isK := constInt(bo.Y); isK && k == 1 {
+			phi, _ = bo.X.(*ssa.Phi)
+		}
+	}
+	if phi == nil {
+		return nil, false
+	}
+	l := loopWithHead(f, phi.Block())
+	if l == nil {
+		return nil, false
+	}
+	iff, ok := l.Head.Instrs[len(l.Head.Instrs)-1].(*ssa.If)
+	if !ok {
+		return nil, false
+	}
+	cmp, ok := iff.Cond.(*ssa.BinOp)
+	if !ok || cmp.Op != token.LSS {
+		return nil, false
+	}
+	if cmp.X != idx && cmp.X != ssa.Value(phi) {
+		// rotated: cmp.X is phi+1 while the element index is phi+1 too
+		if bo, ok := cmp.X.(*ssa.BinOp); !ok || bo.X != ssa.Value(phi) {
+			return nil, false
+		}
+	}
+	// starts at 0 (or -1 for the rotated form)
+	for i, pred := range l.Head.Preds {
+		if !l.Blocks[pred] {
+			if k, ok := constInt(phi.Edges[i]); !ok || (k != 0 && k != -1) {
+				return nil, false
+			}
+		}
+	}
+	return cmp.Y, true
+}
+
+// indexedFill recognises `s := make([]T, p+q)` followed by exactly two
+// indexed assignments: s[i] for i over [0,p) and s[p+j] for j over [0,q).
+func (c *Ctx) indexedFill(ms *ssa.MakeSlice) ([]rootAdd, bool) {
+	lb, ok := ms.Len.(*ssa.BinOp)
+	if !ok || lb.Op != token.ADD {
+		return nil, false
+	}
+	f := ms.Parent()
+	sameLen := func(a, b ssa.Value) bool {
+		if a == b {
+			return true
+		}
+		ca, ok1 := a.(*ssa.Call)
+		cb, ok2 := b.(*ssa.Call)
+		if ok1 && ok2 && isBuiltin(&ca.Call, "len") && isBuiltin(&cb.Call, "len") {
+			return c.resolve(ca.Call.Args[0]) == c.resolve(cb.Call.Args[0])
+		}
+		return false
+	}
+	var stores []*ssa.Store
+	var idxs []ssa.Value
+	for _, r := range *ms.Referrers() {
+		ia, ok := r.(*ssa.IndexAddr)
+		if !ok {
+			continue
+		}
+		for _, rr := range *ia.Referrers() {
+			if st, ok := rr.(*ssa.Store); ok && st.Addr == ssa.Value(ia) {
+				stores = append(stores, st)
+				idxs = append(idxs, ia.Index)
+			}
+		}
+	}
+	if len(stores) != 2 {
+		return nil, false
+	}
+	for _, pq := range [][2]ssa.Value{{lb.X, lb.Y}, {lb.Y, lb.X}} {
+		p, q := pq[0], pq[1]
+		for a := 0; a < 2; a++ {
+			b := 1 - a
+			// stores[a] fills [0,p), stores[b] fills [p,p+q)
+			n1, ok1 := c.loopCounterBound(f, idxs[a])
+			sum, isSum := idxs[b].(*ssa.BinOp)
+			if !ok1 || !sameLen(n1, p) || !isSum || sum.Op != token.ADD {
+				continue
+			}
+			for _, tj := range [][2]ssa.Value{{sum.X, sum.Y}, {sum.Y, sum.X}} {
+				if !sameLen(tj[0], p) {
+					continue
+				}
+				if n2, ok2 := c.loopCounterBound(f, tj[1]); ok2 && sameLen(n2, q) {
+					return []rootAdd{{stores[a], stores[a].Val}, {stores[b], stores[b].Val}}, true
+				}
+			}
+		}
+	}
+	return nil, false
 }
